@@ -553,6 +553,7 @@ impl Config for Adversarial {
                                 }
                                 if f.map_or(true, |f| f <= s.len()) {
                                     let rp = json!({"kind": "set", "syms": s, "hint": hint, "fail_at": f, "target": Value::Null});
+                                    crate::crumbs::set_replay(&rp.to_string());
                                     runs.fetch_add(1, Ordering::Relaxed);
                                     if let Err(m) = one_set_input(s, hint, f, bs, None) {
                                         *viol.lock().unwrap() = Some((rp, m));
@@ -561,6 +562,7 @@ impl Config for Adversarial {
                                     if s.len() <= 3 || hint.is_none() {
                                         for t in targets.iter() {
                                             let rp = json!({"kind": "set", "syms": s, "hint": hint, "fail_at": f, "target": t});
+                                            crate::crumbs::set_replay(&rp.to_string());
                                             runs.fetch_add(1, Ordering::Relaxed);
                                             if let Err(m) = one_set_input(s, hint, f, bs, Some(t)) {
                                                 *viol.lock().unwrap() = Some((rp, m));
@@ -592,6 +594,8 @@ impl Config for Adversarial {
             rep.violations.push(Viol { config: self.label(), message: m, replay: rp });
         }
         if rep.violations.is_empty() {
+            // (a crash - e.g. an allocation failure on an infallible path - is attributed to this part through the breadcrumb)
+            crate::crumbs::set_replay_unwatched(&json!({"kind": "zst"}).to_string());
             match env::catch(layout_hint_inputs) {
                 Ok(Ok(k)) => rep.executions += k,
                 Ok(Err(m)) | Err(m) => rep.violations.push(Viol { config: self.label(), message: m, replay: json!({"kind": "zst"}) }),
